@@ -495,12 +495,17 @@ def gen_use(quick, seed):
     # exit() / error injected at every statement position of every script, also inside branches and loops
     wrappers = ["%s", "if true {\n%s\n}", "for i = 0; i < 2; i = i + 1 {\n%s\n}", "for v in [1, 2] {\nif v == 2 {\n%s\n}\nprobe(v)\n}",
                 "w = 0\nfor ; w < 2; add_key(pst, w) {\nw = w + 1\n%s\n}", "w = 0\nfor ; w < 3; probe(7, w) {\nw = w + 1\nif w == 2 {\n%s\n}\n}"]
-    injections = [("exit", "exit()"), ("fail", "q = 1 + nil"), ("failkey", "add_key(kq, 1 + nil)")]
+    # exit() ends its script wherever the call is written: as a statement of its own, as an assignment source, inside a
+    # parenthesis, a list, an argument or an operand
+    injections = [("exit", "exit()"), ("fail", "q = 1 + nil"), ("failkey", "add_key(kq, 1 + nil)"),
+                  ("exitasg", "q = exit()"), ("exitlist", "q = [exit()]"), ("exitparen", "(exit())"), ("exitarg", "q = len(exit())")]
     n = 0
     for which, stmts in (("main", stmts_main), ("b", stmts_b), ("c", stmts_c)):
         for pos in range(len(stmts) + 1):
             for iname, inj in injections:
                 for w in (wrappers if not quick else wrappers[:2] + wrappers[3:]):
+                    if quick and iname.startswith("exit") and iname != "exit" and rng.random() < 0.6:
+                        continue
                     n += 1
                     body = stmts[:pos] + [w % inj] + stmts[pos:]
                     scripts = {"main": "\n".join(stmts_main), "b": base_extra["b.p"], "c": base_extra["c.p"]}
@@ -819,6 +824,24 @@ def gen_builtins(quick, seed):
                 reads = "probe(k)" if vn not in ("list", "map") or sit == "var" else "probe(1)"
                 text = "\n".join(pre + [call, reads])
                 out.append(ps("bi:%d" % n, text, pt=pt, tag="builtin %s; subject: %s %s" % (call.split("(")[0], sit, vn)))
+    # a name assigned only inside an earlier block is gone afterwards: builtins in a sibling block / the next loop round / after the
+    # block read the point (or nothing), never the vanished variable
+    blocky = ["if true {\nk = %s\n}\nif true {\n%s\n}\n%s", "if true {\nk = %s\n}\n%s\n%s", "for i = 0; i < 2; i = i + 1 {\n%s\nk = %s\n}\n%s",
+              "if false {\n} else {\nk = %s\n}\nif fi {\nif true {\n%s\n}\n}\n%s", "for v in [1] {\nk = %s\n}\nfor w in [1] {\n%s\n}\n%s"]
+    for call in BCALLS:
+        if "\n" in call:
+            continue
+        for bi, tmpl in enumerate(blocky):
+            for vn, vlit, vpt in [b for b in BVALS if b[0] in ("strpad", "int", "strurl")]:
+                for sit in ("field", "absent"):
+                    if quick and rng.random() < 0.55:
+                        continue
+                    pt = {"meas": "m", "tags": {"tg": "tv"}, "fields": {"fi": 7, "fs": "sv", "message": "msg"}}
+                    if sit == "field":
+                        pt["fields"]["k"] = "  pT%20x "
+                    n += 1
+                    args = (call, vlit, "probe(k)") if bi == 2 else (vlit, call, "probe(k)")
+                    out.append(ps("bi:%d" % n, tmpl % args, pt=pt, tag="builtin %s after a block-local variable of the subject's name vanished" % call.split("(")[0]))
     # the `_` alias of message and attribute-expression / string-literal key spellings
     for call in ["trim(_)", "uppercase(_)", "add_key(_, 1)", "drop_key(_)", 'cast(_, "int")', "set_tag(_)", "rename(nk, _)", "probe(get_key(_))",
                  'replace(_, "a+", "X")', "url_decode(_)", 'strfmt(_, "%s", "z")', "set_measurement(_, true)", 'add_key(a.b, 1)', 'drop_key("fi")',
